@@ -254,8 +254,11 @@ pub fn gen_trait(idx: usize, rng: &mut Rng, ks: &[PKind]) -> Trait {
                 parts.join("_")
             };
             // the chain variant `chain_<name>` and Pascal names must stay distinct within a trait
-            // Rust keywords, and inherent methods of Connection (which would shadow the trait method)
-            if ["do", "as", "if", "in", "id", "read", "write", "split", "flush", "join", "new", "a"].contains(&cand.as_str()) {
+            // Rust keywords, inherent methods of Connection (which would shadow the trait method), and
+            // the methods of varlink_service::Proxy, which the generated driver has in scope to start
+            // chains with (two traits with a method of the same name on one type are ambiguous in
+            // Rust, E0034, whatever the macro does)
+            if ["do", "as", "if", "in", "id", "read", "write", "split", "flush", "join", "new", "a", "get_info", "get_interface_description"].contains(&cand.as_str()) {
                 continue;
             }
             if names.insert(pascal(&cand).to_lowercase()) {
